@@ -201,7 +201,7 @@ def parse_rec(line):
     ip, sp, op = (f.get("last", "-1,-1,-1").split(",") + ["-1", "-1"])[:3]
     r["last_ip"], r["last_sp"], r["last_op"] = int(ip), int(sp), int(op)
     try:
-        r["out"] = bytes.fromhex(f.get("out", ""))
+        r["out"] = norm_dump(bytes.fromhex(f.get("out", "")))
         r["err"] = bytes.fromhex(f.get("err", ""))
     except ValueError:
         r["out"], r["err"] = b"?", b"?"
@@ -234,6 +234,13 @@ def classify(r):
     return "other"
 
 
+def norm_dump(out):
+    """vm_print (reported limit, unhandled exception) prints the configured sizes: not part of the program's text"""
+    if b"machine:\n" not in out:
+        return out
+    return re.sub(rb"\t(stack_size|mem_size): \d+\n", rb"\t\1: <configured>\n", out)
+
+
 def strip_machine_dump(out):
     """vm_print writes a `machine:` block to stdout when the limit is reported"""
     k = out.rfind(b"machine:\n")
@@ -257,6 +264,73 @@ def brief(r):
     return {"mem": r["mem"], "stack": r["stack"], "kind": r["kind"], "status": r["status"], "steps": r["steps"],
             "last_ip": r["last_ip"], "last_sp": r["last_sp"], "last_op": r["last_op"],
             "stderr": r["err"].decode(errors="replace")[:1500], "stdout_tail": r["out"].decode(errors="replace")[-300:]}
+
+
+PUSH_SHAPES = ("ShPush1", "ShPushN", "ShPopPush", "ShMark", "ShDup", "ShAlloc", "ShUnpack", "ShRead")
+
+
+def sample_probes(T, tier, rng, pushers):
+    """Trace every program of /repo/sample once under big limits; per pushing opcode keep the smallest deterministic
+    programs in which that opcode sets a new running maximum of sp (only there can its limit check fire).
+    Returns (programs, info)."""
+    import glob
+    quick = tier == "quick"
+    files = sorted(glob.glob(os.path.join(common.REPO, "sample", "*.nev")))
+    runs0 = T.runs
+
+    def scan(f):
+        pid = "sample/" + os.path.basename(f)[:-4]
+        dump, trace = T.path(pid, ".scan.code"), T.path(pid, ".scan.trace")
+        try:
+            comp, recs = T.lim(f, [(MEM_BIG, STACK_BIG), (MEM_BIG, STACK_BIG - 1)], trace=trace, dump=dump, max_steps=60000, timeout=30)
+        except Exception:       # noqa
+            return None
+        try:
+            if comp != 0 or len(recs) != 2 or any(r["kind"] != "complete" for r in recs):
+                return None
+            a, b = recs
+            if (a["out"], a["result"], a["steps"]) != (b["out"], b["result"], b["steps"]) or a["peak"] > 400:
+                return None
+            code = {}
+            with open(dump) as fh:
+                for l in fh:
+                    if l.startswith("I "):
+                        q = l.split()
+                        code[int(q[1])] = int(q[2])
+            setters, mx, prev = set(), -1, None
+            with open(trace) as fh:
+                for l in fh:
+                    if l.startswith("t "):
+                        q = l.split()
+                        ip, sp = int(q[1]), int(q[2])
+                        if prev is not None and sp > mx:
+                            setters.add(T.opname(code.get(prev, -1)))
+                        mx = max(mx, sp)
+                        prev = ip
+            return (pid, f, a["steps"], a["peak"], setters)
+        finally:
+            for x in (dump, trace):
+                try:
+                    os.unlink(x)
+                except OSError:
+                    pass
+
+    scanned = [x for x in vmcheck.pmap(scan, files, workers=16) if x]
+    scan_runs = T.runs - runs0
+    T.runs = runs0                                  # tracing is selection, not an evaluation of the property
+    per = 2 if quick else 6
+    chosen, by_op = {}, {}
+    for op in sorted(pushers):
+        cand = sorted((x for x in scanned if op in x[4]), key=lambda x: (x[3] + x[2] // 50, x[0]))
+        pick = cand[:per - 1] + (rng.sample(cand[per - 1:per + 5], 1) if len(cand) >= per else [])
+        by_op[op] = {"samples_where_it_sets_a_new_maximum": len(cand), "taken": [x[0] for x in pick]}
+        for x in pick:
+            chosen[x[0]] = x
+    progs = []
+    for pid, f, steps, peak, setters in sorted(chosen.values()):
+        progs.append((pid, open(f, errors="replace").read(), None, ["sample", "peak"]))
+    return progs, {"samples": len(files), "traced_complete_deterministic": len(scanned), "scan_runs": scan_runs,
+                   "programs_taken": len(progs), "per_pushing_opcode": by_op}
 
 
 def tool_defaults():
@@ -472,7 +546,7 @@ def cli_family(ctx, T, stats, nontrivial):
         if exp["kind"] == "complete":
             t, v = exp["result"].split(":")
             want_rc = int(v) & 0xFF if t == "1" else None           # OBJECT_INT: the status is the result
-            if out != exp["out"] or (want_rc is not None and rc != want_rc):
+            if norm_dump(out) != exp["out"] or (want_rc is not None and rc != want_rc):
                 ctx.violation("cli:%s:size-changes-result" % order,
                               "C14: `%s` fits its limits (%s) but prints/returns something else than the API run (status %s, expected %s)"
                               % (" ".join(shown), eff, rc, want_rc), rep)
@@ -699,6 +773,14 @@ def _run(ctx, T):
     P += c14progs.twod_programs(ctx.tier, ctx.rng)
     EP = c14progs.entry_programs(ctx.tier, ctx.rng)          # entry functions with 0..k parameters (PUSH_PARAM pushes k slots)
     P += EP
+    # peak probes: one pushing construct at the unique deepest point of the run (typed/catch-all/nested/rethrowing
+    # exception handlers, each literal class, nil, globals, captured variables, closures at function entry, ...);
+    # plus, per pushing opcode, the smallest programs of /repo/sample in which that opcode sets a new maximum of sp
+    PP = c14progs.peak_programs(ctx.tier, ctx.rng)
+    pushers = {T.opname(num): sh for num, sh in shapes.items() if sh in PUSH_SHAPES}
+    SP, scan_info = sample_probes(T, ctx.tier, ctx.rng, pushers)
+    ctx.notes["sample_scan"] = scan_info
+    P += PP + [q for q in SP if q[0] not in {x[0] for x in P}]
     exhaustive_upto = 140 if quick else 700
     rnd_sizes = 10 if quick else 60
     seeds = {p[0]: ctx.rng.randrange(1 << 30) for p in P}
@@ -749,9 +831,11 @@ def _run(ctx, T):
         D = pr["demand"]
         res["demand"], res["peak"], res["steps"] = D, peak, ref["steps"]
         res["path"], res["sin"], res["ref"], res["src"], res["opts"] = path, sin, ref, src, opts
-        if D not in sizes:
+        if not {max(0, D - 1), D} <= set(sizes):
             sizes = sorted(set(sizes) | {max(0, D - 1), D, D + 1})
             pr = T.predict(dump, trace, bits, sizes)
+        ep = pr["pred"].get(D - 1)
+        res["peak_op"] = T.opname(ep[3]) if ep and ep[0] in ("limit", "oob") else None     # instruction at the unique peak
         # a broken tree produces a sanitizer report (slow: symbolised) at most sizes: run the sizes in
         # ascending chunks and stop once a few unexpected reports are in hand; of the sizes where the
         # model itself predicts a write outside (write-first variant) a handful is enough
@@ -771,6 +855,7 @@ def _run(ctx, T):
                 res["truncated_after"] = todo[min(len(todo), k + 48) - 1]
                 break
         sizes = [s for s in todo if s in got]
+        res["sizes_run"] = list(sizes)
         ref_out = ref["out"]
         completes = []
         fired = False
@@ -939,13 +1024,18 @@ def _run(ctx, T):
     RZ = 64
     op_push_param = T.names.index("BYTECODE_PUSH_PARAM") if "BYTECODE_PUSH_PARAM" in T.names else -1
     entry_ids = {p[0] for p in EP}
+    guard_ids = entry_ids | {p[0] for p in PP} | {p[0] for p in SP}
 
     def entry_case(res):
-        out = {"id": res["id"], "events": [], "runs": 0, "window": 0, "sizes": 0, "k": len((res.get("opts") or {}).get("args", []))}
-        if res["id"] not in entry_ids or "path" not in res:
+        out = {"id": res["id"], "events": [], "runs": 0, "window": 0, "sizes": 0, "k": len((res.get("opts") or {}).get("args", [])),
+               "limit_ops": collections.Counter()}
+        if res["id"] not in guard_ids or "path" not in res:
             return out
-        ref, opts, src = res["ref"], res["opts"], res["src"]
-        sizes = list(range(0, res["peak"] + 8))
+        ref, opts, src = res["ref"], res["opts"] or {}, res["src"]
+        if res["peak"] + 8 <= max(exhaustive_upto, 0) or res["id"] in entry_ids:
+            sizes = list(range(0, res["peak"] + 8))
+        else:
+            sizes = sorted(set(res.get("sizes_run", [])) | set(range(max(0, res["demand"] - 3), res["demand"] + 3)))
         _, recs = T.lim(res["path"], [(MEM_BIG, s_) for s_ in sizes], stdin=res["sin"], opts=opts, redzone=RZ)
         out["runs"] = len(recs)
         got = {r["stack"]: r for r in recs}
@@ -969,9 +1059,11 @@ def _run(ctx, T):
                 rep["slots_written_before_slot_0"], rep["slots_written_at_or_after_stack_size"], rep["first_slot_outside"] = front, back, first
                 rep["expected"] = "no store outside slots 0..%d; 'stack too large' + exit 1, or the reference result" % (s_ - 1)
                 out["events"].append(("violation", "stack-write-outside:" + opn,
-                                      "C14: %s(%s) with stack size %d: %s stored to %d slot(s) outside the configured stack (first: slot %d) "
-                                      "before the run ended as %s" % (opts.get("entry"), ", ".join(opts.get("args", [])), s_, T.opname(r["last_op"]),
-                                                                     front + back, first if back else -1, r["kind"]), rep))
+                                      "C14: %s with stack size %d: %s stored to %d slot(s) outside the configured stack (first: slot %d) "
+                                      "before the run ended as %s%s" % (
+                                          "%s(%s)" % (opts.get("entry"), ", ".join(opts.get("args", []))) if opts else res["id"], s_,
+                                          T.opname(r["last_op"]), front + back, first if back else -1, r["kind"],
+                                          "" if r["kind"] != "complete" else " (model demand %d: must be 'stack too large')" % res["demand"]), rep))
                 continue
             if r["kind"] == "complete":
                 completes.append(s_)
@@ -983,14 +1075,16 @@ def _run(ctx, T):
                 if not ref["out"].startswith(strip_machine_dump(r["out"])):
                     out["events"].append(("violation", "stack-limit-output",
                                           "C14: %s at stack size %d printed text that the full run does not print before the limit" % (res["id"], s_), rep))
-                elif r["last_op"] == op_push_param:
-                    out["window"] += 1
+                else:
+                    out["limit_ops"][T.opname(r["last_op"])] += 1
+                    if r["last_op"] == op_push_param:
+                        out["window"] += 1
             else:
                 out["events"].append(("violation", "stack-limit-diagnostic:" + r["kind"],
                                       "C14: %s at stack size %d ends as %s (%s) instead of completing or 'stack too large'/exit 1"
                                       % (res["id"], s_, r["kind"], r["status"]), rep))
-        if completes and completes != list(range(min(completes), sizes[-1] + 1)) and not out["events"]:
-            bad = [x for x in range(min(completes), sizes[-1] + 1) if x not in completes]
+        if completes and [x for x in sizes if x >= min(completes)] != completes and not out["events"]:
+            bad = [x for x in sizes if x >= min(completes) and x not in completes]
             out["events"].append(("violation", "stack-limit-not-monotone",
                                   "C14: %s completes with stack size %d but not with %d" % (res["id"], min(completes), bad[0]),
                                   {"program": src, "entry": opts.get("entry"), "entry_args": opts.get("args"), "completes_at": min(completes),
@@ -1002,7 +1096,19 @@ def _run(ctx, T):
 
     eres = vmcheck.pmap(entry_case, results, workers=16)
     es = 0
+    guard_limit_ops = collections.Counter()
     for o in eres:
+        guard_limit_ops.update(o["limit_ops"])
+        if o["id"] not in entry_ids:
+            stats["peak_probe_runs_with_guard_slots"] += o["runs"]
+            if o["runs"] and not o["events"] and o["limit_ops"]:
+                nontrivial.add((o["id"], "guarded-peak"))
+            for ev in o["events"]:
+                if ev[0] == "broken":
+                    ctx.correspondence_broken("guard:%s:%s" % (ev[1], o["id"]), ev[2])
+                else:
+                    ctx.violation(ev[1], ev[2], ev[3])
+            continue
         stats["entry_runs_with_guard_slots"] += o["runs"]
         stats["entry_sizes_where_limit_fires_in_push_param"] += o["window"]
         for ev in o["events"]:
@@ -1185,11 +1291,36 @@ def _run(ctx, T):
         "3/4 and 4x default stack} x {Hlo, Hhi, Hhi+50, D-1, D, 2x default heap, 3/4 default stack} and absent, both option orders + 2 seeded "
         "spellings; non-trivial = distinct (probe, spelling, expected outcome) that agreed with the API run"
         % (exhaustive_upto, rnd_sizes, len(mems), MEM_BIG, STACK_BIG, RZ))
+    # which instruction is at the unique peak (the one reporting the limit at demand-1), and which instructions report the
+    # limit at some size (they set a new maximum of sp there), per program: a pushing opcode absent from the second table
+    # was never observable at the limit in this run
+    at_peak, at_limit = {}, {}
+    for res in results:
+        if any(ev[0] in ("broken", "violation", "skip") for ev in res["events"]):
+            continue
+        if res.get("peak_op"):
+            at_peak.setdefault(res["peak_op"], []).append(res["id"])
+        for opn_ in res["limit_ops"]:
+            at_limit.setdefault(opn_, []).append(res["id"])
+
+    def table(d):
+        return {k: {"programs": len(v), "e.g.": sorted(v, key=len)[:3]} for k, v in sorted(d.items(), key=lambda kv: -len(kv[1]))}
+    gaps = {o: sh for o, sh in sorted(pushers.items()) if o not in at_limit}
+    ctx.coverage["opcode_at_the_peak_x_programs"] = table(at_peak)
+    ctx.coverage["opcode_reporting_the_limit_x_programs"] = table(at_limit)
+    ctx.coverage["pushing_opcodes_never_reporting_the_limit"] = {
+        "opcodes": gaps,
+        "note": "ShPopPush handlers pop their operands before they push one slot: they can only set a new maximum of sp with zero operands; "
+                "the read builtin is reached through its library wrapper only, below the wrapper's own peak; OP_DUP_INT, REWRITE and "
+                "ID_DIM_SLICE follow deeper pushes of the same construct.  A handler that never sets a new maximum reports no limit at any size: "
+                "an earlier instruction does",
+        "limit_reported_under_guard_slots_in_opcode": dict(guard_limit_ops.most_common())}
     ctx.coverage["distribution"] = {
         "stack_limit_reported_in_opcode": dict(limit_ops.most_common()),
         "counts": dict(stats),
         "nontrivial_stack": len([1 for x in nontrivial if x[1] == "stack"]),
         "nontrivial_heap": len([1 for x in nontrivial if x[1] == "heap"]),
         "nontrivial_entry_window": len([1 for x in nontrivial if x[1] == "entry-window"]),
+        "nontrivial_guarded_peak": len([1 for x in nontrivial if x[1] == "guarded-peak"]),
         "nontrivial_cli": len([1 for x in nontrivial if x[0] == "cli"]),
     }
